@@ -8,6 +8,7 @@ mod interp;
 mod keccak;
 mod mon;
 mod props;
+mod refevm;
 mod statehist;
 mod world;
 mod wrun;
